@@ -154,4 +154,90 @@ example : ∃ bursts, generate crcEx (fun b => [b]) .r12 payloadEx headerEx 2 1 
       (by decide) (by decide) (by decide) (by decide)
   exact ⟨bursts, h1, by rw [h2]; decide⟩
 
+/-! ## structured payload content: a checksum of one part of the payload inside the payload
+
+`generated_received` quantifies over every payload, so payloads that talk about themselves are included; the
+class is made explicit here because two realistic "robustness" changes (a receiver that closes the packet as
+soon as the last four octets received are the CRC-32 of everything before them; a generator that drops such a
+tail from its input) are invisible to every payload that is not of this shape. -/
+
+/-- the four octets of a CRC-32 field as they are sent in the last block (`natToBits 32` of the block's
+`crc32` attribute, most significant octet first = `CRC32.calculate(..).to_bytes(4, "little")`) -/
+def crcOctets (v : Nat) : Bytes := [v / 2 ^ 24 % 256, v / 2 ^ 16 % 256, v / 2 ^ 8 % 256, v % 256]
+
+theorem crcOctets_lt (v : Nat) : ∀ b ∈ crcOctets v, b < 256 := by
+  intro b hb
+  simp only [crcOctets, List.mem_cons, List.not_mem_nil, or_false] at hb
+  omega
+
+/-- Self-referential payloads are delivered whole.  Let the payload be `pre ++ enc (C.crc32 pre) ++ post`: the
+octets `pre`, then ANY octet encoding `enc` of the CRC-32 of `pre` (`crcOctets` = exactly what a last block
+would carry for `pre`; other octet orders, shorter fields, … likewise), then `post` — so with suitable lengths
+the checksum sits right in front of the end of a non-last block (`post ≠ []`), or is the payload's own tail
+(`post = []`), with or without pad octets behind it.  Still: one `started data`, one `data ended` with all
+N = `nBlocks` data blocks (N computed from the FULL payload length, nothing dropped by the generator), and the
+blocks concatenate to the full payload followed by the announced pad octets (nothing cut by the receiver). -/
+theorem selfref_delivered_whole (C : Crc) (raw : CsbkRaw) (r : Rate) (pre post : Bytes) (enc : Nat → Bytes)
+    (gh : GenHeader) (k cc : Nat) (raises : List Bool) (two : Bool)
+    (hpre : ∀ b ∈ pre, b < 256) (hpost : ∀ b ∈ post, b < 256) (henc : ∀ v, ∀ b ∈ enc v, b < 256)
+    (hcrc32 : ∀ d, C.crc32 d < 2 ^ 32) (hcrc9 : ∀ r d s c, C.crc9 r d s c < 2 ^ 9)
+    (hpoc : gh.poc = padOf r gh.hdr.a (pre ++ enc (C.crc32 pre) ++ post))
+    (hbtf : gh.hdr.btf = some (nBlocks r gh.hdr.a (pre ++ enc (C.crc32 pre) ++ post)))
+    (hn : nBlocks r gh.hdr.a (pre ++ enc (C.crc32 pre) ++ post) ≤ 127) (hk : k ≤ 16) :
+    ∃ (bursts : List AbsBurst) (t : Terminal) (recs : List Rec) (gs : List GenBlock),
+      generate C raw r (pre ++ enc (C.crc32 pre) ++ post) gh k cc = .ok bursts
+      ∧ run (Terminal.init raises) (bursts.map fun b => (two, b)) = .ok (t, recs)
+      ∧ allEvents recs =
+          [.started .data,
+           .dataEnded (.data gh.hdr)
+             ((preambleBtfs k (nBlocks r gh.hdr.a (pre ++ enc (C.crc32 pre) ++ post) + 1)).map
+                 (fun b => Block.csbk (raw b))
+               ++ [.hdr gh.hdr] ++ gs.map typed)]
+      ∧ gs.length = nBlocks r gh.hdr.a (pre ++ enc (C.crc32 pre) ++ post)
+      ∧ userData (gs.map typed) = pre ++ enc (C.crc32 pre) ++ post ++ List.replicate gh.poc 0
+      ∧ (∃ g, gs.getLast? = some g ∧ g.ptype.isLast = true ∧ ∀ g' ∈ gs.dropLast, g'.ptype.isLast = false) := by
+  have hbytes : ∀ b ∈ pre ++ enc (C.crc32 pre) ++ post, b < 256 := by
+    intro b hb
+    simp only [List.mem_append] at hb
+    rcases hb with (hb | hb) | hb
+    · exact hpre b hb
+    · exact henc _ b hb
+    · exact hpost b hb
+  obtain ⟨bursts, t, recs, gs, h1, _, h3, h4, h5, h6, ⟨g, hg1, hg2, _, hg4⟩, _⟩ :=
+    generated_received C raw r _ gh k cc raises two hbytes hcrc32 hcrc9 hpoc hbtf hn hk
+  exact ⟨bursts, t, recs, gs, h1, h3, h4, h5, h6, g, hg1, hg2, hg4⟩
+
+/-- non-vacuity, the receiver-side shape: rate 1/2 unconfirmed (12 octets per block, 8 in the last), the first
+block = 8 octets followed by the on-air octets of their CRC-32, then 5 more octets: 2 blocks, 3 pad octets —
+block 1 of 2 ends with the CRC-32 of everything before it and the packet is nevertheless not closed there -/
+def selfPre : Bytes := [17, 34, 51, 68, 85, 102, 119, 136]
+
+def selfPost : Bytes := [1, 2, 3, 4, 5]
+
+def selfHeader : GenHeader := { hdr := { btf := some 2, a := false, sap := 4, raw := [2] }, poc := 3 }
+
+example : (selfPre ++ crcOctets (crcEx.crc32 selfPre)).length = (octets .r12 false).1
+    ∧ crcOctets (crcEx.crc32 selfPre) ≠ [0, 0, 0, 0]
+    ∧ nBlocks .r12 false (selfPre ++ crcOctets (crcEx.crc32 selfPre) ++ selfPost) = 2
+    ∧ padOf .r12 false (selfPre ++ crcOctets (crcEx.crc32 selfPre) ++ selfPost) = 3 := by decide
+
+example : ∃ gs : List GenBlock, gs.length = 2
+    ∧ userData (gs.map typed) = selfPre ++ crcOctets (crcEx.crc32 selfPre) ++ selfPost ++ [0, 0, 0] := by
+  obtain ⟨_, _, _, gs, _, _, _, h4, h5, _⟩ :=
+    selfref_delivered_whole crcEx (fun b => [b]) .r12 selfPre selfPost crcOctets selfHeader 0 1 [false] false
+      (by decide) (by decide) crcOctets_lt (fun d => Nat.mod_lt _ (by decide))
+      (fun _ _ _ _ => Nat.mod_lt _ (by decide)) (by decide) (by decide) (by decide) (by decide)
+  exact ⟨gs, by rw [h4]; decide, by rw [h5]; decide⟩
+
+/-- the generator-side shape: the payload's own last four octets are the on-air CRC-32 of its head (12
+octets, rate 1/2 unconfirmed: 2 blocks, 8 pad octets); all 12 octets are sent and delivered -/
+example : ∃ gs : List GenBlock, gs.length = 2
+    ∧ userData (gs.map typed) = selfPre ++ crcOctets (crcEx.crc32 selfPre) ++ List.replicate 8 0 := by
+  obtain ⟨_, _, _, gs, _, _, _, h4, h5, _⟩ :=
+    selfref_delivered_whole crcEx (fun b => [b]) .r12 selfPre [] crcOctets
+      { hdr := { btf := some 2, a := false, sap := 4, raw := [2] }, poc := 8 } 3 1 [] true
+      (by decide) (by decide) crcOctets_lt (fun d => Nat.mod_lt _ (by decide))
+      (fun _ _ _ _ => Nat.mod_lt _ (by decide)) (by decide) (by decide) (by decide) (by decide)
+  exact ⟨gs, by rw [h4]; decide, by rw [h5]; simp [List.append_nil]⟩
+
 end Dmr.C07
